@@ -65,7 +65,7 @@ func (C15) Gen(r *core.Rng, tier string, emit func(string)) {
 			ic = pmtiles.NoCompression
 		}
 		pad := r.Chance(1, 4)
-		nkinds := 24
+		nkinds := 26
 		for kind := 0; kind < nkinds; kind++ {
 			if kind > 0 && tier != "thorough" && r.Chance(1, 2) {
 				continue
@@ -74,6 +74,14 @@ func (C15) Gen(r *core.Rng, tier string, emit func(string)) {
 			data := ts.data
 			// entry-level corruptions happen before the tree is built
 			switch kind {
+			case 24, 25: // run lengths whose sum reaches 2^32 (consistent archive; kind 25 then corrupts the count by 2^32)
+				es[0].RunLength = 4294967295
+				for k := 1; k < len(es); k++ {
+					es[k].TileID += 4294967296
+				}
+				if len(es) == 1 {
+					es = append(es, pmtiles.EntryV3{TileID: es[0].TileID + 4294967296, Offset: es[0].Offset, Length: es[0].Length, RunLength: 7})
+				}
 			case 17: // one entry's length pushed beyond the section (any reference, incl. later ones of a shared content)
 				k := r.Intn(len(es))
 				es[k].Length = uint32(len(data)) + 1 + uint32(r.Intn(5))
@@ -100,7 +108,8 @@ func (C15) Gen(r *core.Rng, tier string, emit func(string)) {
 					}
 				}
 			}
-			root := buildTree(r.Fork(), es, depth, 1+r.Intn(6), false)
+			// a third of the trees mix tile entries and leaf pointers in one directory (legal; enumeration order matters)
+			root := buildTree(r.Fork(), es, depth, 1+r.Intn(6), r.Chance(1, 3))
 			tsk := tileSet{entries: es, data: data}
 			ba := assembleArchive(root, tsk, ic, baseHeader(), []byte("{}"))
 			dl := ba.dirsLine()
@@ -185,6 +194,8 @@ func (C15) Gen(r *core.Rng, tier string, emit func(string)) {
 				h.MinLonE7 = h.MaxLonE7
 			case 23:
 				h.CenterZoom = h.MinZoom // boundary: still valid
+			case 25:
+				h.AddressedTilesCount -= 4294967296 // equal modulo 2^32: must be rejected
 			}
 			if kind == 13 && h.LeafDirectoryOffset == 0 && len(dirs) > 1 {
 				continue // would change what the enumeration reads
